@@ -375,6 +375,37 @@ Fixpoint for_loop (ex : env -> list stmt -> state -> res state) (x : name) (body
       for_loop ex x body e r st2
   end.
 
+(* Gib e zurück: claim or copy into the return slot (then the scopes are left) *)
+Definition ret_value (ce : env) (fr : option expr) (st2 : state) : res (option rv * state) :=
+  match fr with
+  | None => Ok (None, st2)
+  | Some re =>
+      do r3 <- eval ce re st2;
+      let '(v, st3) := r3 in
+      match v with
+      | RInt z => do st4 <- end_stmt st3; Ok (Some (RInt z), st4)
+      | RSeq l tmp =>
+          do r4 <- claim_or_copy l tmp st3;
+          let '(l', st4) := r4 in
+          do st5 <- end_stmt st4;
+          Ok (Some (RSeq l' true), st5)
+      end
+  end.
+
+(* back in the caller: its temporaries again, the result as a temporary, the optional store *)
+Definition call_finish (e : env) (dst : option name) (saved : list nat) (result : option rv) (st7 : state) : res state :=
+  let st8 := set_tmps st7 saved in
+  let st9 := match result with Some (RSeq l _) => add_tmp l st8 | _ => st8 end in
+  match dst, result with
+  | None, _ => end_stmt st9
+  | Some x, Some v =>
+      match lookup e x with
+      | Some a => do st10 <- store_value a v st9; end_stmt st10
+      | None => Er EStuck
+      end
+  | Some _, None => Er EStuck
+  end.
+
 Section Exec.
   Variable elide : bool.       (* false: every value parameter is a fresh copy (-O0/-O1, the language rule) *)
   Variable mt : meta.          (* result of the constant-parameter analysis *)
@@ -444,34 +475,10 @@ Section Exec.
         let '(ce, st1) := r in
         let saved := tmps st1 in
         do st2 <- ex ce (fbody fd) (set_tmps st1 []);
-        (* Gib e zurück: claim or copy into the return slot, then leave the scopes *)
-        do r2 <- match fret fd with
-                 | None => Ok (None, st2)
-                 | Some re =>
-                     do r3 <- eval ce re st2;
-                     let '(v, st3) := r3 in
-                     match v with
-                     | RInt z => do st4 <- end_stmt st3; Ok (Some (RInt z), st4)
-                     | RSeq l tmp =>
-                         do r4 <- claim_or_copy l tmp st3;
-                         let '(l', st4) := r4 in
-                         do st5 <- end_stmt st4;
-                         Ok (Some (RSeq l' true), st5)
-                     end
-                 end;
+        do r2 <- ret_value ce (fret fd) st2;
         let '(result, st6) := r2 in
         do st7 <- exit_frame base st6;
-        let st8 := set_tmps st7 saved in
-        let st9 := match result with Some (RSeq l _) => add_tmp l st8 | _ => st8 end in
-        match dst, result with
-        | None, _ => end_stmt st9
-        | Some x, Some v =>
-            match lookup e x with
-            | Some a => do st10 <- store_value a v st9; end_stmt st10
-            | None => Er EStuck
-            end
-        | Some _, None => Er EStuck
-        end
+        call_finish e dst saved result st7
     end.
 
   Fixpoint exec (fuel : nat) (e : env) (ss : list stmt) (st : state) {struct fuel} : res state :=
